@@ -232,6 +232,10 @@ def build_styled(desc, order=None, log=None, defaults_in_signature=True, cache=F
             raw = [f"raw_{o}" for o in outs]
             renames.update(dict(zip(raw, outs)))
             outs = raw
+            if "output_picker" in extra:
+                # a custom picker is called with a name given in `output_name` (here `raw_<o>`), also after the output was renamed
+                # (the DF-C10-picker-renamed-output repair); the returned dictionary is keyed by the final names
+                extra["output_picker"] = lambda r, n: r[n[4:] if n.startswith("raw_") else n]
         on = outs[0] if len(outs) == 1 else tuple(outs)
         kw = dict(extra)
         rest = {p: v for p, v in dflt.items() if p not in in_sig}
